@@ -923,6 +923,17 @@ pixman_image_fill_boxes (pixman_op_t           op,
                     return FALSE;
             }
 
+            /* The direct fill below does no clipping of its own: keep it
+             * inside the image like the compositing path does.
+             */
+            if (!pixman_region32_intersect_rect (&fill_region, &fill_region,
+                                                 0, 0,
+                                                 dest->bits.width,
+                                                 dest->bits.height))
+            {
+                return FALSE;
+            }
+
             rects = pixman_region32_rectangles (&fill_region, &n_rects);
             for (j = 0; j < n_rects; ++j)
             {
